@@ -30,6 +30,7 @@ equal the snapshot taken when it was produced.
 """
 import dataclasses as py_dataclasses
 import functools
+import json
 import os
 import shutil
 import tempfile
@@ -792,6 +793,94 @@ def _agg_plan_adapter(fn):
   return wrapped
 
 
+# ------------------------------------------------- restart in a new process
+
+def digest(x):
+  """Process-independent fingerprint of a deep value snapshot."""
+  import hashlib
+  h = hashlib.sha1()
+  for path, d in sorted(flat(x).items()):
+    h.update(repr((path, d)).encode())
+  return h.hexdigest()
+
+
+def _system_of(case):
+  return AggregatorSystem(case) if case['system'] in AGGS else AlgorithmSystem(case)
+
+
+def _linear_applies(case):
+  return [op for op in case['ops'] if op[0] == 'apply']
+
+
+def _child_continue(spec):
+  """Runs in a fresh interpreter: restore the pickled state, run the last round."""
+  case = spec['case']
+  system = _system_of(case)
+  state = serialization.load_state(spec['state_path'])
+  applies = _linear_applies(case)
+  new_state, out = system.apply(state, system.make_args(applies[-1]))
+  return {'restored': digest(state), 'after': digest(out)}
+
+
+def run_cross_process(case):
+  """Serialise after some rounds, restore in a NEW PROCESS, continue: the next
+  round must be what the original process computes from the original state.  A
+  restart is a new interpreter: nothing process-specific -- e.g. the hash
+  randomisation of str/bytes, which reorders sets and changes which key a leaf
+  or a client is paired with -- may influence a round."""
+  import subprocess
+  import sys
+  from vf import env as _env
+  system = _system_of(case)
+  applies = _linear_applies(case)
+  state = system.init()
+  for op in applies[:-1]:
+    state, _ = system.apply(state, system.make_args(op))
+  tmp = tempfile.mkdtemp(dir='/var/tmp', prefix='C10x-')
+  try:
+    path = os.path.join(tmp, 'state')
+    serialization.save_state(state, path)
+    _, out = system.apply(state, system.make_args(applies[-1]))
+    here = {'restored': digest(state), 'after': digest(out)}
+    for hs in case['hashseeds']:
+      env = _env.worker_env()
+      env['PYTHONHASHSEED'] = str(hs)
+      p = subprocess.run(
+          [sys.executable, '-m', 'vf.props.c10',
+           json.dumps({'case': case, 'state_path': path})],
+          env=env, cwd=_env.VERIF_DIR, capture_output=True, text=True, timeout=1800)
+      line = [l for l in p.stdout.splitlines() if l.startswith('@@C10@@')]
+      if p.returncode != 0 or not line:
+        raise Violation('restart:child_process_failed', p.stderr[-1500:])
+      there = json.loads(line[0][7:])
+      require(there['restored'] == here['restored'], 'restart_in_new_process:restored_state_differs',
+              f'PYTHONHASHSEED={hs}: the state loaded in the new process is not the saved one')
+      require(there['after'] == here['after'], 'restart_in_new_process:successor_differs',
+              f'PYTHONHASHSEED={hs}: round {len(applies) - 1} continued from the restored '
+              f'state in a new process differs from the same round in the original process '
+              f'({case["system"]})')
+  finally:
+    shutil.rmtree(tmp, ignore_errors=True)
+  return []
+
+
+@st.composite
+def cross_process_strategy(draw, tier):
+  which = draw(st.sampled_from(ALGS + AGGS + ['rotated', 'drive']))
+  if which in AGGS:
+    case = draw(aggregator_strategy(tier))
+    case['system'] = which
+    if which == 'uniform_arith':
+      case['levels'] = min(case['levels'], 3)
+  else:
+    case = draw(algorithm_strategy(which)(tier))
+  case['ops'] = _linear_applies(case)[:3]
+  case.pop('other_instance', None)
+  case.pop('other_steps', None)
+  case['hashseeds'] = draw(st.lists(st.integers(1, 10**6), min_size=2, max_size=2, unique=True))
+  return case
+
+
 QUICK = {'fed_avg': 128, 'fed_prox': 128, 'mime': 128, 'mime_lite': 128,
          'agnostic': 128, 'hyp_cluster': 128, 'apfl': 144}
 # relative shares of the per-shard soft time cap, proportional to measured cost
@@ -817,4 +906,18 @@ CHECKS = [
           budget={'quick': 320, 'thorough': 6400}, time_share=3.5,
           doc=DOC % 'the five compression aggregators (output = aggregated '
               'params + new CompressionState)'),
+    Check(name='restart_in_new_process', run=run_cross_process,
+          strategy=cross_process_strategy,
+          labels=lambda c: ['system:' + c['system'], 'applies:%d' % len(c['ops'])],
+          nontrivial=lambda c, ls: len(c['ops']) >= 2,
+          budget={'quick': 16, 'thorough': 320}, time_share=2.0,
+          doc='2-3 rounds of an algorithm / aggregator: the state is pickled before '
+              'the last round and that round is run again from the restored state in '
+              'two fresh interpreter processes with different PYTHONHASHSEED; the '
+              'restored state and the successor are bit-identical to this process\'s'),
 ]
+
+
+if __name__ == '__main__':
+  import sys as _sys
+  print('@@C10@@' + json.dumps(_child_continue(json.loads(_sys.argv[1]))))
